@@ -230,10 +230,274 @@ theorem search_crash_iff (cands : List Cand) :
   · intro h
     simp [h]
 
+/-- a search that finds viable candidates has at least one acceptable winner -/
+theorem search_winner_exists (cands : List Cand) (ws : List Cand) (dropOk : Bool)
+    (h : search cands 0 = .best ws dropOk) (hd : dropOk = false) : ∃ c ∈ cands, c.v.certain = true := by
+  unfold search at h
+  split at h
+  · cases h
+  · dsimp only at h
+    split at h
+    · cases h
+    · injection h with _ h2
+      rw [hd] at h2
+      cases hs : List.filter (fun c => c.v.certain) cands with
+      | nil => rw [hs] at h2; simp at h2
+      | cons c t =>
+        have : c ∈ List.filter (fun c => c.v.certain) cands := by rw [hs]; exact List.mem_cons_self
+        obtain ⟨hc, hv⟩ := List.mem_filter.1 this
+        exact ⟨c, hc, hv⟩
+
+/-! ## The whole `_carve_feature`: the fitted grouping is an arg-max over the specified candidates -/
+
+/-- the association measure of a grouping of the table `t` -/
+def assoc (cfg : Cfg) (t : Table) (c : List (List String)) : Measure :=
+  measure cfg ((grouper cfg t.rows c).map (·.2)) (nRows t.rows) t.tie
+
+theorem mem_candidates {cfg : Cfg} {t : Table} {dev : Option (List (String × Row))}
+    {combs : List (List (List String))} {w : Cand} :
+    w ∈ candidates cfg t dev combs ↔ ∃ c ∈ combs, w = ⟨c, assoc cfg t c, viability cfg t.rows dev c⟩ := by
+  unfold candidates assoc
+  simp only [List.mem_map]
+  constructor
+  · rintro ⟨c, hc, rfl⟩; exact ⟨c, hc, rfl⟩
+  · rintro ⟨c, hc, rfl⟩; exact ⟨c, hc, rfl⟩
+
+/-- `g` is a best viable grouping among the candidates `spec` of the table `t` (dev sample `dev`):
+    viable itself, and no candidate that is certainly viable has a strictly larger measure -/
+def IsArgmax (cfg : Cfg) (t : Table) (dev : Option (List (String × Row)))
+    (spec : List (List String) → Prop) (g : List (List String)) : Prop :=
+  spec g ∧ (viability cfg t.rows dev g).viable = true ∧
+    ∀ c, spec c → (viability cfg t.rows dev c).certain = true →
+      gtKey 0 (keyOf (assoc cfg t c)) (keyOf (assoc cfg t g)) = false
+
+/-- a winner of the search over an enumerated candidate list is an arg-max over the specification
+    the enumerator is complete for -/
+theorem argmax_of_search {cfg : Cfg} {t : Table} {dev : Option (List (String × Row))}
+    {combs : List (List (List String))} {spec : List (List String) → Prop}
+    (hspec : ∀ c, c ∈ combs ↔ spec c) {ws : List Cand} {dropOk : Bool}
+    (h : search (candidates cfg t dev combs) 0 = .best ws dropOk) {w : Cand} (hw : w ∈ ws) :
+    IsArgmax cfg t dev spec w.comb := by
+  obtain ⟨hwc, hviab, hmax⟩ := search_best_sound _ ws dropOk h w hw
+  obtain ⟨c, hc, rfl⟩ := mem_candidates.1 hwc
+  refine ⟨(hspec c).1 hc, hviab, ?_⟩
+  intro c' hc' hcert
+  exact hmax ⟨c', assoc cfg t c', viability cfg t.rows dev c'⟩ (mem_candidates.2 ⟨c', (hspec c').2 hc', rfl⟩) hcert
+
+/-- the candidates of stage 1: cuts of the base labels into 2..max_n_mod consecutive groups -/
+def Stage1Spec (cfg : Cfg) (inp : Input) (c : List (List String)) : Prop :=
+  IsCut inp.labels c ∧ 2 ≤ c.length ∧ c.length ≤ cfg.maxNMod
+
+/-- the candidates of stage 2 for the stage-1 grouping `g1`: the missing-value modality inside a
+    group of a (possibly re-merged) consecutive grouping of the stage-1 groups, or alone -/
+def Stage2Spec (cfg : Cfg) (inp : Input) (g1 : List (List String)) (c : List (List String)) : Prop :=
+  c ∈ nanCombinations (g1.filterMap List.head?) inp.nanLabel cfg.maxNMod
+
+/-- the table of stage 2: the stage-1 groups plus the missing-value modality -/
+def stage2Table (inp : Input) (g1 : List (List String)) : Table :=
+  { rows := applyComb inp.train2.rows (g1 ++ [[inp.nanLabel]]), tie := inp.train2.tie }
+
+def stage2Dev (inp : Input) (g1 : List (List String)) : Option (List (String × Row)) :=
+  inp.dev2.map (fun d => applyComb d (g1 ++ [[inp.nanLabel]]))
+
+/-- **C01, kept features.**  Whatever `_carve_feature` returns as fitted grouping `g`:
+    * without the missing-value stage (`dropna=False` or no missing value) `g` is — up to the
+      missing-value modality kept apart — an arg-max of the measure over *all* viable cuts of the
+      base labels into 2..max_n_mod consecutive groups;
+    * with it, `g` is the expansion of an arg-max over all viable placements of the missing-value
+      modality, computed on a stage-1 grouping that is itself such an arg-max. -/
+theorem carve_kept_is_argmax (cfg : Cfg) (inp : Input) (rs : List (Option (List (List String))))
+    (g : List (List String)) (h : carve cfg inp 0 = .results rs) (hg : some g ∈ rs) :
+    ∃ g1, IsArgmax cfg inp.train1 inp.dev1 (Stage1Spec cfg inp) g1 ∧
+      (((cfg.dropna && inp.hasNan) = false ∧ g = (if inp.hasNan then g1 ++ [[inp.nanLabel]] else g1)) ∨
+       ((cfg.dropna && inp.hasNan) = true ∧ ∃ g2,
+          IsArgmax cfg (stage2Table inp g1) (stage2Dev inp g1) (Stage2Spec cfg inp g1) g2 ∧
+          g = expand (g1 ++ [[inp.nanLabel]]) g2)) := by
+  unfold carve at h
+  dsimp only at h
+  by_cases h1 : inp.labels.length + (if inp.hasNan = true then 1 else 0) ≤ 1
+  · rw [if_pos h1] at h; injection h with h; subst h; simp at hg
+  rw [if_neg h1] at h
+  by_cases h2 : (Carve.measure cfg (inp.train2.rows.map (·.2)) (nRows inp.train2.rows) inp.train2.tie == Measure.crash) = true
+  · rw [if_pos h2] at h; cases h
+  rw [if_neg h2] at h
+  by_cases h3 : inp.labels.length ≤ 1
+  · rw [if_pos h3] at h; injection h with h; subst h; simp at hg
+  rw [if_neg h3] at h
+  have hspec : ∀ c, c ∈ consecutiveCombinations inp.labels cfg.maxNMod ↔ Stage1Spec cfg inp c :=
+    fun c => consecutiveCombinations_iff inp.labels cfg.maxNMod c
+  cases hsearch : search (candidates cfg inp.train1 inp.dev1 (consecutiveCombinations inp.labels cfg.maxNMod)) 0 with
+  | crash => rw [hsearch] at h; cases h
+  | none => rw [hsearch] at h; injection h with h; subst h; simp at hg
+  | best ws dropOk =>
+    rw [hsearch] at h
+    dsimp only at h
+    by_cases hnan : (cfg.dropna && inp.hasNan) = true
+    · rw [if_pos hnan] at h
+      by_cases hcr : (ws.map (fun w => stage2 cfg inp w.comb 0)).any Option.isNone = true
+      · rw [if_pos hcr] at h; cases h
+      rw [if_neg hcr] at h
+      injection h with h
+      subst h
+      rw [List.mem_append] at hg
+      rcases hg with hg | hg
+      · split at hg <;> simp at hg
+      · obtain ⟨r, hr, hgr⟩ := List.mem_flatMap.1 hg
+        obtain ⟨w, hw, rfl⟩ := List.mem_map.1 hr
+        refine ⟨w.comb, argmax_of_search hspec hsearch hw, Or.inr ⟨hnan, ?_⟩⟩
+        unfold stage2 at hgr
+        dsimp only at hgr
+        cases hsearch2 : search (candidates cfg (stage2Table inp w.comb) (stage2Dev inp w.comb)
+            (nanCombinations (w.comb.filterMap List.head?) inp.nanLabel cfg.maxNMod)) 0 with
+        | crash =>
+          unfold stage2Table stage2Dev at hsearch2
+          rw [hsearch2] at hgr; simp at hgr
+        | none =>
+          unfold stage2Table stage2Dev at hsearch2
+          rw [hsearch2] at hgr; simp at hgr
+        | best ws2 dropOk2 =>
+          have hs2 := hsearch2
+          unfold stage2Table stage2Dev at hsearch2
+          rw [hsearch2] at hgr
+          simp only [Option.getD_some, List.mem_append, List.mem_map] at hgr
+          rcases hgr with hgr | ⟨w2, hw2, hgw⟩
+          · split at hgr <;> simp at hgr
+          · injection hgw with hgw
+            refine ⟨w2.comb, ?_, hgw.symm⟩
+            exact argmax_of_search (spec := Stage2Spec cfg inp w.comb) (fun c => Iff.rfl) hs2 hw2
+    · rw [if_neg hnan] at h
+      injection h with h
+      subst h
+      rw [List.mem_append] at hg
+      rcases hg with hg | hg
+      · split at hg <;> simp at hg
+      · obtain ⟨w, hw, hgw⟩ := List.mem_map.1 hg
+        injection hgw with hgw
+        refine ⟨w.comb, argmax_of_search hspec hsearch hw, Or.inl ⟨by simpa using hnan, hgw.symm⟩⟩
+
+theorem certain_viable {v : Viab} (h : v.certain = true) : v.viable = true := by
+  unfold Viab.certain at h
+  simp only [Bool.and_eq_true] at h
+  exact h.1
+
+theorem search_none_no_certain (cands : List Cand) (h : search cands 0 = .none) :
+    ∀ c ∈ cands, c.v.certain = false := by
+  unfold search at h
+  split at h
+  · cases h
+  · dsimp only at h
+    split at h
+    · rename_i hnil
+      intro c hc
+      cases hv : c.v.certain with
+      | false => rfl
+      | true =>
+        have : c ∈ List.filter (fun c => c.v.viable) cands := List.mem_filter.2 ⟨hc, certain_viable hv⟩
+        rw [hnil] at this
+        cases this
+    · cases h
+
+/-- no candidate of the specification is viable whatever the resolution of rate ties -/
+def NoneCertain (cfg : Cfg) (t : Table) (dev : Option (List (String × Row))) (spec : List (List String) → Prop) : Prop :=
+  ∀ c, spec c → (viability cfg t.rows dev c).certain = false
+
+theorem noneCertain_of_cands {cfg : Cfg} {t : Table} {dev : Option (List (String × Row))}
+    {combs : List (List (List String))} {spec : List (List String) → Prop} (hspec : ∀ c, c ∈ combs ↔ spec c)
+    (h : ∀ c ∈ candidates cfg t dev combs, c.v.certain = false) : NoneCertain cfg t dev spec := by
+  intro c hc
+  exact h ⟨c, assoc cfg t c, viability cfg t.rows dev c⟩ (mem_candidates.2 ⟨c, (hspec c).2 hc, rfl⟩)
+
+/-- **C01, dropped features.**  `_carve_feature` drops a feature only if it has at most one
+    modality, or one of the two searches has no viable candidate: no cut of the base labels into
+    2..max_n_mod consecutive groups is viable, or (missing-value stage) for some best stage-1
+    grouping no placement of the missing-value modality is. -/
+theorem carve_dropped_only_if (cfg : Cfg) (inp : Input) (rs : List (Option (List (List String))))
+    (h : carve cfg inp 0 = .results rs) (hn : none ∈ rs) :
+    inp.labels.length + (if inp.hasNan = true then 1 else 0) ≤ 1 ∨ inp.labels.length ≤ 1 ∨
+    NoneCertain cfg inp.train1 inp.dev1 (Stage1Spec cfg inp) ∨
+    ((cfg.dropna && inp.hasNan) = true ∧ ∃ g1, IsArgmax cfg inp.train1 inp.dev1 (Stage1Spec cfg inp) g1 ∧
+      NoneCertain cfg (stage2Table inp g1) (stage2Dev inp g1) (Stage2Spec cfg inp g1)) := by
+  unfold carve at h
+  dsimp only at h
+  by_cases h1 : inp.labels.length + (if inp.hasNan = true then 1 else 0) ≤ 1
+  · exact Or.inl h1
+  rw [if_neg h1] at h
+  by_cases h2 : (Carve.measure cfg (inp.train2.rows.map (·.2)) (nRows inp.train2.rows) inp.train2.tie == Measure.crash) = true
+  · rw [if_pos h2] at h; cases h
+  rw [if_neg h2] at h
+  by_cases h3 : inp.labels.length ≤ 1
+  · exact Or.inr (Or.inl h3)
+  rw [if_neg h3] at h
+  have hspec : ∀ c, c ∈ consecutiveCombinations inp.labels cfg.maxNMod ↔ Stage1Spec cfg inp c :=
+    fun c => consecutiveCombinations_iff inp.labels cfg.maxNMod c
+  cases hsearch : search (candidates cfg inp.train1 inp.dev1 (consecutiveCombinations inp.labels cfg.maxNMod)) 0 with
+  | crash => rw [hsearch] at h; cases h
+  | none => exact Or.inr (Or.inr (Or.inl (noneCertain_of_cands hspec (search_none_no_certain _ hsearch))))
+  | best ws dropOk =>
+    rw [hsearch] at h
+    dsimp only at h
+    have hdrop : none ∈ (if dropOk = true then [(none : Option (List (List String)))] else []) →
+        NoneCertain cfg inp.train1 inp.dev1 (Stage1Spec cfg inp) := by
+      intro hmem
+      cases dropOk with
+      | false => simp at hmem
+      | true => exact noneCertain_of_cands hspec (search_drop_allowed _ ws hsearch)
+    by_cases hnan : (cfg.dropna && inp.hasNan) = true
+    · rw [if_pos hnan] at h
+      by_cases hcr : (ws.map (fun w => stage2 cfg inp w.comb 0)).any Option.isNone = true
+      · rw [if_pos hcr] at h; cases h
+      rw [if_neg hcr] at h
+      injection h with h
+      subst h
+      rw [List.mem_append] at hn
+      rcases hn with hn | hn
+      · exact Or.inr (Or.inr (Or.inl (hdrop hn)))
+      · obtain ⟨r, hr, hgr⟩ := List.mem_flatMap.1 hn
+        obtain ⟨w, hw, rfl⟩ := List.mem_map.1 hr
+        refine Or.inr (Or.inr (Or.inr ⟨hnan, w.comb, argmax_of_search hspec hsearch hw, ?_⟩))
+        unfold stage2 at hgr
+        dsimp only at hgr
+        cases hsearch2 : search (candidates cfg (stage2Table inp w.comb) (stage2Dev inp w.comb)
+            (nanCombinations (w.comb.filterMap List.head?) inp.nanLabel cfg.maxNMod)) 0 with
+        | crash =>
+          unfold stage2Table stage2Dev at hsearch2
+          rw [hsearch2] at hgr; simp at hgr
+        | none =>
+          exact noneCertain_of_cands (spec := Stage2Spec cfg inp w.comb) (fun c => Iff.rfl) (search_none_no_certain _ hsearch2)
+        | best ws2 dropOk2 =>
+          have hs2 := hsearch2
+          unfold stage2Table stage2Dev at hsearch2
+          rw [hsearch2] at hgr
+          simp only [Option.getD_some, List.mem_append, List.mem_map] at hgr
+          rcases hgr with hgr | ⟨w2, _, hgw⟩
+          · cases dropOk2 with
+            | false => simp at hgr
+            | true => exact noneCertain_of_cands (spec := Stage2Spec cfg inp w.comb) (fun c => Iff.rfl) (search_drop_allowed _ ws2 hs2)
+          · cases hgw
+    · rw [if_neg hnan] at h
+      injection h with h
+      subst h
+      rw [List.mem_append] at hn
+      rcases hn with hn | hn
+      · exact Or.inr (Or.inr (Or.inl (hdrop hn)))
+      · obtain ⟨w, _, hgw⟩ := List.mem_map.1 hn
+        cases hgw
+
 /-! ## Non-vacuity -/
 
 example : consecutiveCombinations [1, 2, 3] 3 = [[[1], [2], [3]], [[1], [2, 3]], [[1, 2], [3]]] := by decide
 example : IsCut [1, 2, 3] [[1], [2, 3]] := ⟨by decide, by decide⟩
 example : nanCombinations ["a", "b"] "nan" 2 = [[["a", "nan"], ["b"]], [["a"], ["b", "nan"]]] := by decide
+
+/-- a concrete binary feature: three modalities with rates 10 %, 20 %, 80 %; the carver merges the
+    first two (the hypotheses of `carve_kept_is_argmax` are met by an actual run of the model) -/
+private def cfgX : Cfg := { kind := .binary, sortBy := .cramerv, minFreqMod := 1/10, maxNMod := 2, dropna := false }
+private def rowsX : List (String × Row) := [("a", ⟨40, 4, 0, false⟩), ("b", ⟨30, 6, 0, false⟩), ("c", ⟨30, 24, 0, false⟩)]
+private def inpX : Input :=
+  { labels := ["a", "b", "c"], hasNan := false, nanLabel := "__NAN__", train1 := { rows := rowsX },
+    train2 := { rows := rowsX }, dev1 := none, dev2 := none }
+example : (match carve cfgX inpX 0 with
+    | .results l => decide (l = [some [["a", "b"], ["c"]]])
+    | .crash => false) = true := by decide +kernel
 
 end C01
